@@ -611,3 +611,47 @@ Lemma monotone_total evs :
   c4_lt_W (total_readings evs) -> no_prune evs = true ->
   nondecreasing c4z (outputs (snd (lrun repaired false sst0 evs))) = true.
 Proof. intros H NP. apply monotone; [apply no_wrap_if_total_small; exact H|exact NP]. Qed.
+
+(* ---------- the RADIUS wire encoding of the counters ---------- *)
+Lemma giga_roundtrip x : x < W -> giga_val (giga_attr x) * W32 + x mod W32 = x.
+Proof.
+  intros H. unfold giga_attr, giga_val.
+  assert (D : x / W32 < W32).
+  { apply N.div_lt_upper_bound; [unfold W32; lia|]. unfold W, W32 in *. lia. }
+  rewrite (N.mod_small _ _ D).
+  pose proof (N.div_mod x W32 ltac:(unfold W32; lia)) as E.
+  destruct (N.ltb_spec 0 (x / W32)) as [P|P].
+  - unfold W32 in *. lia.
+  - apply N.le_0_r in P. rewrite P in E. rewrite N.mul_0_r in E. cbn [N.mul N.add]. rewrite N.add_0_l in *. symmetry; exact E.
+Qed.
+
+Lemma wire_roundtrip st c : wire_range c = true -> decode_wire (encode_wire st c) = c.
+Proof.
+  unfold wire_range. rewrite !andb_true_iff, !N.ltb_lt. intros [[[H1 H2] H3] H4].
+  unfold decode_wire, encode_wire; cbn [w_in_oct w_out_oct w_in_giga w_out_giga w_in_pkt w_out_pkt].
+  rewrite !giga_roundtrip by assumption. rewrite !N.mod_small by assumption.
+  destruct c; reflexivity.
+Qed.
+
+Lemma wire_monotone st st' c c' :
+  wire_range c = true -> wire_range c' = true -> c4_le c c' ->
+  c4_le (decode_wire (encode_wire st c)) (decode_wire (encode_wire st' c')).
+Proof. intros H H' L. rewrite !wire_roundtrip by assumption. exact L. Qed.
+
+Lemma through_wire_id o : wire_range (counters_of o) = true -> through_wire o = o.
+Proof.
+  intros H. unfold through_wire. rewrite wire_roundtrip by exact H. destruct o; reflexivity.
+Qed.
+
+Lemma map_through_wire l :
+  forallb (fun o => wire_range (counters_of o)) l = true -> map through_wire l = l.
+Proof.
+  induction l as [|o r IH]; cbn [forallb map]; [reflexivity|].
+  rewrite andb_true_iff. intros [H1 H2]. rewrite through_wire_id by exact H1. rewrite IH by exact H2. reflexivity.
+Qed.
+
+Lemma monotone_on_wire g evs :
+  lrun_wraps repaired g sst0 evs = false -> no_prune evs = true ->
+  forallb (fun o => wire_range (counters_of o)) (outputs (snd (lrun repaired g sst0 evs))) = true ->
+  nondecreasing c4z (map through_wire (outputs (snd (lrun repaired g sst0 evs)))) = true.
+Proof. intros Hw NP R. rewrite map_through_wire by exact R. apply monotone; assumption. Qed.
